@@ -250,6 +250,7 @@ func (bh *builtHamt) open(preload bool) (datamodel.Node, error) {
 	verifrt.Assert(err == nil, "root-loads")
 	bh.st.Loads = nil
 	unixfsnode.AddUnixFSReificationToLinkSystem(bh.ls)
+	unixfsnode.AddUnixFSReificationToLinkSystem(bh.ls) // (adding it twice must be harmless)
 	if preload {
 		return bh.ls.KnownReifiers["unixfs-preload"](ipld.LinkContext{}, root, bh.ls)
 	}
